@@ -158,7 +158,9 @@ impl DiskRowset {
                     }
                     let first_val: i32 = PrimitiveFixedWidthEncode::decode(&mut first_key);
 
-                    if first_val > begin_val {
+                    // rows equal to the begin key may end the previous block (the key column is
+                    // not unique): only blocks starting below the begin key can be skipped
+                    if first_val >= begin_val {
                         break;
                     }
                     pre_block_first_key = index.first_rowid;
